@@ -700,9 +700,7 @@ func (c *Ctx) applyContractAt(s *State, fr *Frame, site string, pos token.Pos, f
 		env.vars[recvName] = args[0]
 	}
 	env.old = s.snapshot()
-	for _, l := range fc.Lets {
-		env.vars[l.Name] = env.eval(l.Expr)
-	}
+	env.lets = fc.Lets
 	for i, r := range fc.Requires {
 		lb := r.Label
 		if lb == "" {
@@ -754,6 +752,7 @@ func (c *Ctx) applyContractAt(s *State, fr *Frame, site string, pos token.Pos, f
 	env2 := c.newSpecEnv(s, fr)
 	env2.pkg, env2.pc = env.pkg, env.pc
 	env2.vars = env.vars
+	env2.lets = fc.Lets
 	env2.old = old
 	results := sig.Results()
 	if results.Len() == 1 {
